@@ -23,8 +23,8 @@ type IterPath struct {
 func EnumIterPaths(fn *ssa.Function, l *Loop, limit int) ([]*IterPath, bool) {
 	var out []*IterPath
 	complete := true
-	var walk func(b, from *ssa.BasicBlock, env pathEnv, blocks []*ssa.BasicBlock, conds []Guard, onPath map[*ssa.BasicBlock]bool)
-	walk = func(b, from *ssa.BasicBlock, env pathEnv, blocks []*ssa.BasicBlock, conds []Guard, onPath map[*ssa.BasicBlock]bool) {
+	var walk func(b, from *ssa.BasicBlock, env pathEnv, blocks []*ssa.BasicBlock, conds []Guard, onPath map[*ssa.BasicBlock]int)
+	walk = func(b, from *ssa.BasicBlock, env pathEnv, blocks []*ssa.BasicBlock, conds []Guard, onPath map[*ssa.BasicBlock]int) {
 		if len(out) >= limit {
 			complete = false
 			return
@@ -56,8 +56,8 @@ func EnumIterPaths(fn *ssa.Function, l *Loop, limit int) ([]*IterPath, bool) {
 			}
 		}
 		blocks = append(append([]*ssa.BasicBlock{}, blocks...), b)
-		onPath[b] = true
-		defer delete(onPath, b)
+		onPath[b]++
+		defer func() { onPath[b]-- }()
 		last := b.Instrs[len(b.Instrs)-1]
 		if _, ok := last.(*ssa.Return); ok {
 			out = append(out, &IterPath{Blocks: blocks, End: "return", Conds: conds})
@@ -103,14 +103,14 @@ func EnumIterPaths(fn *ssa.Function, l *Loop, limit int) ([]*IterPath, bool) {
 				} else {
 					out = append(out, &IterPath{Blocks: append(append([]*ssa.BasicBlock{}, blocks...), n.s), End: "exit", Conds: c2, ExitTo: n.s})
 				}
-			case onPath[n.s]:
-				// inner cycle: do not go round again
+			case onPath[n.s] >= 2:
+				// inner cycle: a block is entered at most twice (one full inner iteration, then the exit)
 			default:
 				walk(n.s, b, e2, blocks, c2, onPath)
 			}
 		}
 	}
-	walk(l.Header, nil, pathEnv{}, nil, nil, map[*ssa.BasicBlock]bool{})
+	walk(l.Header, nil, pathEnv{}, nil, nil, map[*ssa.BasicBlock]int{})
 	return out, complete
 }
 
